@@ -92,11 +92,12 @@ def run(ctx):
             key = (name, tuple(args))
             tmp = tempfile.gettempdir()
             variants = [dict(garbage=0, cwd=None, mode="stream", seed=0), dict(garbage=10007, cwd=tmp, mode="stream", seed=1),
-                        dict(garbage=333, cwd=None, mode="path", seed=rnd.randint(2, 10 ** 6)), dict(garbage=70001, cwd="/", mode="stream", seed="random")]
+                        dict(garbage=333, cwd=None, mode="path", seed=rnd.randint(2, 10 ** 6)), dict(garbage=70001, cwd="/", mode="stream", seed="random"),
+                        dict(garbage=5, cwd=None, mode="path", seed=3, decoys=True)]
             if not ctx.quick():
                 variants += [dict(garbage=rnd.randint(0, 50000), cwd=None, mode=rnd.choice(["path", "stream"]), seed=rnd.randint(0, 10 ** 6)) for _ in range(3)]
             for v in variants:
-                jobs.append((key, dict(garbage=v["garbage"], cwd=v["cwd"], calls=[dict(pdb=text, args=args, mode=v["mode"])]), v["seed"], v))
+                jobs.append((key, dict(garbage=v["garbage"], cwd=v["cwd"], decoys=v.get("decoys", False), calls=[dict(pdb=text, args=args, mode=v["mode"])]), v["seed"], v))
     # in-process histories
     hist_jobs = []
     for h in range(4 if ctx.quick() else 20):
